@@ -529,3 +529,84 @@ Proof.
     + rewrite vdivs_length. apply vmul_length; auto.
     + intros i. rewrite nthq_vdivs, nthq_vmul by auto. rewrite Sc. field. exact NZ.
 Qed.
+
+(* ---------- bare arrays (numpy, SparseVector, SparseArray): the elements are reacted as they are ---------- *)
+Lemma process_conserved o v v' a : Forall (wf (length v)) (obj_members o) ->
+  Forall (balanced a) (obj_members o) -> process o v = (None, v') ->
+  (nonneg (fst (react_obj o v)) -> vdot a v' == vdot a v) /\
+  (forall amax, 0 <= amax -> bounded amax a ->
+     - (amax * eps) <= vdot a v' - vdot a v /\ vdot a v' - vdot a v <= amax * eps) /\
+  nonneg v'.
+Proof.
+  intros W B P. destruct (process_ok _ _ _ P) as (_ & NS & ->).
+  destruct (react_obj_conserves o v a W B) as (_ & D).
+  split; [|split].
+  - intros Nn. rewrite (clampv_id _ Nn). exact D.
+  - intros amax Ha Bd. destruct (clampv_dot_bound amax Ha a (fst (react_obj o v)) Bd) as (B1 & B2).
+    assert (H := neg_sum_nonpos (fst (react_obj o v))). rewrite <- D. split; nra.
+  - apply clampv_nonneg.
+Qed.
+
+Lemma infeasible_lemma o v : snd (react_obj o v) = None -> neg_sum (fst (react_obj o v)) < - eps ->
+  process o v = (Some EInfeasible, fst (react_obj o v)).
+Proof.
+  unfold process. destruct (react_obj o v) as [v1 e]; simpl. intros -> H.
+  apply qltb_true in H. rewrite H. reflexivity.
+Qed.
+
+Lemma vdot_ones : forall w s, length w = length s -> Forall (fun x => ~ x == 0) w ->
+  vdot (map2 Qdiv w w) s == qsum s.
+Proof.
+  induction w as [|x w IH]; intros [|y s] L NZ; simpl in L; try discriminate.
+  - reflexivity.
+  - inversion NZ as [|? ? Nx NZ']; subst. simpl map2. rewrite vdot_cons. simpl qsum.
+    rewrite IH by (auto; lia). field. exact Nx.
+Qed.
+
+(* ---------- instances for the mass ---------- *)
+Lemma mass_conserved_mol_lemma w o mol mol' :
+  obasis o = false -> length w = length mol -> Forall (fun x => ~ x == 0) w ->
+  Forall (wf (length mol)) (obj_members o) -> Forall (balanced w) (obj_members o) ->
+  call_stream w o mol = (None, mol') -> nonneg (fst (react_obj o mol)) ->
+  vdot w mol' == vdot w mol.
+Proof.
+  intros Ob L NZ W B C Nn.
+  assert (B' : Forall (balanced (weights o w w)) (obj_members o)) by (unfold weights; rewrite Ob; exact B).
+  destruct (stream_conserved_lemma w o mol mol' w L NZ W B' C) as (H & _).
+  apply H. unfold buffer. rewrite Ob. exact Nn.
+Qed.
+
+Lemma mass_conserved_wt_lemma w o mol mol' :
+  obasis o = true -> length w = length mol -> Forall (fun x => ~ x == 0) w ->
+  Forall (wf (length mol)) (obj_members o) -> Forall (fun r => qsum (st r) == 0) (obj_members o) ->
+  call_stream w o mol = (None, mol') -> nonneg (fst (react_obj o (to_mass w mol))) ->
+  vdot w mol' == vdot w mol.
+Proof.
+  intros Ob L NZ W B C Nn.
+  assert (B' : Forall (balanced (weights o w w)) (obj_members o)).
+  { unfold weights. rewrite Ob. apply Forall_forall. intros r Hr. unfold balanced.
+    rewrite vdot_ones; [exact (proj1 (Forall_forall _ _) B r Hr)| |exact NZ].
+    assert (Wr := proj1 (Forall_forall _ _) W r Hr). unfold wf in Wr. congruence. }
+  destruct (stream_conserved_lemma w o mol mol' w L NZ W B' C) as (H & _).
+  apply H. unfold buffer. rewrite Ob. exact Nn.
+Qed.
+
+Lemma array_routes_lemma pt w o a : len_ok o a = true ->
+  call pt w o (MSparse a) = process o a /\
+  call pt w o (MNumpy a) = (match fst (process o a) with None => process o a | Some e => (Some e, a) end) /\
+  forall mol, call pt w o (MMassView mol) = via_mass w o mol.
+Proof.
+  intros L. simpl. rewrite L. simpl. repeat split.
+  destruct (process o a) as [[e|] v]; reflexivity.
+Qed.
+
+Lemma constructed_normalised_lemma is_str n P ts reactant x w ph r :
+  mk_reaction is_str n P ts reactant x w ph = Ok r -> normalised r.
+Proof.
+  unfold mk_reaction.
+  destruct (parse is_str n P ts) as [s|e]; simpl; [|discriminate].
+  destruct (choose_reactant n P s reactant) as [k|e]; simpl; [|discriminate].
+  unfold rescale. simpl. destruct (qzerob (- nthq s k)) eqn:Z; [discriminate|].
+  intros H; inversion H; subst. unfold normalised. simpl. rewrite nthq_vdivs.
+  apply qzerob_false in Z. field. lra.
+Qed.
